@@ -163,11 +163,18 @@ func (dht *IpfsDHT) SearchValue(ctx context.Context, key string, opts ...routing
 	}
 
 	stopCh := make(chan struct{})
-	valCh, lookupRes := dht.getValues(ctx, key, stopCh)
+	// The lookup runs under its own context, cancelled when the goroutine below
+	// is done with it. Once the quorum is reached nobody reads valCh any more:
+	// without the cancellation, in-flight queries that still hold a record would
+	// stay blocked on valCh (and the lookup with them) until the caller's
+	// context ends, i.e. for ever with context.Background().
+	lookupCtx, cancelLookup := context.WithCancel(ctx)
+	valCh, lookupRes := dht.getValues(lookupCtx, key, stopCh)
 
 	out := make(chan []byte)
 	go func() {
 		defer close(out)
+		defer cancelLookup()
 		best, peersWithBest, aborted := dht.searchValueQuorum(ctx, key, valCh, stopCh, out, responsesNeeded)
 		if best == nil || aborted {
 			return
